@@ -825,7 +825,7 @@ impl Check for C12 {
     }
     fn scenarios(&self, tier: Tier) -> u64 {
         match tier {
-            Tier::Quick => 240,
+            Tier::Quick => 480,
             Tier::Thorough => 8000,
         }
     }
